@@ -62,10 +62,30 @@ CHECKS = {
    "bounded-exhaustive enumeration of (payload length, MTU, flags, offset) and MTU chains",
    "Every payload length and MTU in a dense window (all residues of (MTU-20) mod 8), extreme lengths, DF/MF/offset combinations and every decreasing MTU triple are fragmented with the real function and judged against the original datagram: fit, alignment, contiguity, content, MF placement, field preservation.",
    "quick: lengths 0..=600 x MTU 68..=700; thorough: 0..=2200 x 68..=1600 plus chains; ihl=5 only (Elvis supports no options).", "6 C10"),
- "C14": (True, "E3 (decoders); NDL and stack parts pending", "exploration",
-   "bounded-exhaustive mutation enumeration of valid packets fed to the six real decoders",
-   "Every truncation, every single-byte value at every position, every pair of structural positions over boundary values, every 2-byte prefix and extreme length-field products of valid seed packets are fed to the real decoders through a real Message; the call must return Ok or Err and never unwind.",
-   "Only the decoder clause is decided so far; the NDL-parser and full-stack clauses of C14 are being built (see DESIGN.md).", "6 C14"),
+ "C14": (True, "E3 (decoders, NDL parser) + E2 (crafted frames into a full stack)", "exploration",
+   "bounded-exhaustive mutation enumeration of valid packets and NDL files fed to the real decoders/parser, plus crafted frames injected into a running full stack under the schedule explorer",
+   "Every truncation, every byte value at every position, structural-field pairs, 2-byte prefixes and extreme length products of valid seed packets go through the six real decoders; every truncation, token/character/line edit and every token string of length <= 4 goes through the real NDL parser; 38 crafted frames (outer layers valid, one layer malformed) are injected into a network carrying an established TCP stream, a UDP listener, DHCP client/server, DNS server and an ARP router: nothing may unwind, the malformed frame reaches no application, the stream still delivers its next write and a following valid datagram arrives.",
+   "Alphabets are listed in the evidence; only valid UTF-8 texts are given to the NDL parser (the statement quantifies over texts).", "6 C14"),
+ "C15": (True, "E1 + E3 (generator), E2 (DHCP)", "model_checking",
+   "explicit-state BFS over the real IpGenerator against a two-bitset reference + deviation-bounded schedule/duplication search over real DhcpServer/DhcpClient",
+   "Every sequence of fetch_ip/fetch_net/return/block operations over small windows at both ends of the address space is executed on the real generator and compared with a reference after every step; constructors are enumerated over all ranges and masks. N clients against a pool of N (N = 1..3) start simultaneously under frame duplication/delay and task-order deviations: leases are pairwise distinct, inside the pool, equal to the acknowledged address, and a released address is leased to a late client.",
+   "Windows of <= 10 addresses reach a fixpoint, 16-address windows are depth-bounded; availability after a duplicated DISCOVER (which burns an offer) is not judged.", "6 C15"),
+ "C16": (True, "E2", "model_checking",
+   "deviation-bounded schedule search over generated router topologies with the real ArpRouter/Arp/Ipv4",
+   "Lines of 1-3 routers, stars of 3-4 subnets and a 3-router ring with correct, missing and looping static routes carry one UDP datagram per execution between every listed host pair; IPv4 frames are parsed off the wire: along the configured path the TTL falls by exactly one per router, the datagram reaches the destination host only, a loop or black hole ends after at most the initial TTL hops and the networks fall silent.",
+   "d <= 1 (quick) / 2 (thorough) over task order and frames held back; hosts use a /32 mask with a default gateway as in the repository's own simulation.", "6 C16"),
+ "C13": (True, "E2", "model_checking",
+   "deviation-bounded schedule search with run_internet_with_timeout itself as a task of the explored runtime",
+   "Machine sets from 0 machines to three-machine SendMessage/Forward/Capture chains, harness applications that are slow to initialise, never initialise, return, hang, or request shutdown early/late/concurrently (incl. 20 at one instant) are run in every schedule within d deviations under a paused clock; a global event order shows that no frame or demux precedes the last initialisation, the status is the first request's (or TimedOut), and the call returns within timeout + 1 s.",
+   "A request at exactly the timeout instant may win or lose; the built-in Capture's own request is accepted as a winner where present.", "6 C13"),
+ "C04": (True, "E2", "model_checking",
+   "complete enumeration of binding configurations x deviation-bounded schedule search, wire-driven reference demultiplexer",
+   "Every subset (size <= 3) of five candidate bindings (own address x2 ports, wildcard, another machine's address, limited broadcast) on a receiving machine, crossed with companions on a second machine, with/without ARP and with/without a MAC in the sender's route, receives nine datagrams to {A1, A2, broadcast} x {P, Q, R}; for every datagram on the wire and every tap it reached a ten-line reference names the one recorder that must get it, and the recorders' logs must equal that multiset (payload, source and destination included); second binds must be refused.",
+   "quick: 26 x 3 x 3 configurations; thorough: 26 x 26 x 3; d <= 1.", "6 C04"),
+ "C20": (True, "E2", "model_checking",
+   "deviation-bounded schedule and frame-delay search over the real DnsClient/DnsServer on the socket stack",
+   "Record sets (1-3 names incl. every printable character and the 24/25-byte names, addresses 0.0.0.0 and 255.255.255.255) and 1-3 clients running lookup scripts (same name twice, crossing names) are executed in every schedule within d deviations with frames held back so that replies arrive in any order: every call returns the registered address, every query has a reply to the same endpoint echoing id and name, and a repeated lookup puts no frame on the wire.",
+   "The authoritative server is sized to the number of distinct lookups so that it ends by itself.", "6 C20"),
  "C18": (True, "E3 (compute_checksum build)", "exploration",
    "bounded-exhaustive enumeration in the compute_checksum build against an RFC 1071 reference and etherparse, plus all single and double bit flips",
    "In a separate build with checksums enabled every emitted IPv4/UDP/TCP checksum over the field products (odd/empty/maximal payloads, sums crafted to 0xffff) must verify under an independent RFC 1071 sum and agree with etherparse, the decoders must accept etherparse-built packets, and every single- and double-bit corruption the checksum can detect must be rejected.",
